@@ -27,17 +27,12 @@ def optsOf (l : Line) : Except String ParseOpts := do
 anticipate yields a marker value that makes the driver report a harness fault. -/
 def envOf (l : Line) : Except String (Env × (Unit → Bool)) := do
   let ipmap ← parseMap (l.get "ipmap")
-  let lowmap ← parseMap (l.get "lowmap")
   let hdr := match l.get? "hdr" with
     | none => none
     | some "~" => none
     | some h => hexArg h
   let remote ← l.bytes "remote"
-  let lower : Bytes → Bytes := fun k =>
-    if Query.isASCII k then Query.asciiLower k
-    else match lowmap.find? (·.1 == k) with
-      | some (_, some v) => v
-      | _ => [0xff, 0xfe, 0xfd]     -- unanticipated: cannot collide with a consulted key
+  let lower : Bytes → Bytes := Query.asciiLower   -- parseQuery lower-cases ASCII letters only (D27)
   let parseIP : Bytes → Option Bytes := fun s =>
     match ipmap.find? (·.1 == s) with
     | some (_, v) => v
